@@ -64,6 +64,13 @@ def _case(draw):
             k = draw(st.integers(1, npop - 4))
             pos = draw(st.lists(st.integers(0, npop - 1), min_size=k, max_size=k, unique=True))
             unknown[str(c)] = [[p, draw(st.sampled_from(['none', 'nan']))] for p in pos]
+    # a series acquired at low gain: the dimmest population sits at 1..3 a.u. of an 18-bit detector, in the quasi-linear
+    # zone of the logicle scale the clustering works on
+    low_gain = draw(st.sampled_from([None, None, None, 1.0, 2.0, 3.0])) if (variant == 'float' and R == 262144 and npop >= 7) else None
+    if low_gain:
+        # up to four of the dimmest populations are discarded at the display edge there; with unknown or piled-up
+        # populations on top fewer than the three the fit needs could remain (a documented refusal, not a failure)
+        piled, unknown, blank_step = [None] * nch, {}, None      # (a far-away blank would push the brightest bead past the detector limit)
     cl = draw(st.sampled_from(['all', 'all', 'one', 'subset']))
     if cl == 'one':
         clustering = [draw(st.integers(0, nch - 1))]
@@ -71,7 +78,7 @@ def _case(draw):
         clustering = draw(st.lists(st.integers(0, nch - 1), min_size=1, max_size=nch - 1, unique=True))
     else:
         clustering = list(range(nch))
-    return dict(blank_step=blank_step, variant=variant, npop=npop, nch=nch, R=R, laws=laws, sizes=sizes, regime=regime, blank=blank, piled=piled,
+    return dict(low_gain=low_gain, blank_step=blank_step, variant=variant, npop=npop, nch=nch, R=R, laws=laws, sizes=sizes, regime=regime, blank=blank, piled=piled,
                 unknown=unknown, clustering=clustering, cv=draw(st.floats(0.02, 0.05)),
                 statistic=draw(st.sampled_from(['median', 'mean'])), data_seed=draw(st.integers(0, 2 ** 20)),
                 np_seed=draw(st.integers(0, 2 ** 20)), perm_seed=draw(st.integers(0, 2 ** 20)))
@@ -114,6 +121,9 @@ def synth(case):
         for r in ratios:
             rfi.append(rfi[-1] / r)
         rfi = rfi[::-1]                                     # increasing brightness
+        if case.get('low_gain') and not int_log:
+            dim0 = rfi[1] / (case.get('blank_step') or (3.4 + 0.6 * law['auto_frac'] / 0.5)) if case['blank'] else rfi[0]
+            rfi = [v * case['low_gain'] / dim0 for v in rfi]
         m, b = law['m'], law['b']
         first = 1 if case['blank'] else 0
         total_dim = math.exp(b) * rfi[first] ** m           # mef + auto of the dimmest non-blank bead
@@ -201,7 +211,7 @@ def check(case, obs):
     clustering_channels = [chans[i] for i in case['clustering']]
     nontriv = nch >= 2 or bool(case['unknown']) or any(_piled(case, c) for c in range(nch)) or sorted(case['clustering']) != list(range(nch))
     obs.nontrivial = nontriv
-    obs.label('variant:' + case.get('variant', 'float'), 'regime:' + case['regime'], 'channels:%d' % nch, 'piled:%s' % ('mixed' if len({_piled(case, c) for c in range(nch)}) > 1 else _piled(case, 0)), 'blank' if case['blank'] else 'no_blank',
+    obs.label('variant:' + case.get('variant', 'float'), 'regime:' + case['regime'], 'low_gain' if case.get('low_gain') else 'normal_gain', 'channels:%d' % nch, 'piled:%s' % ('mixed' if len({_piled(case, c) for c in range(nch)}) > 1 else _piled(case, 0)), 'blank' if case['blank'] else 'no_blank',
               'unknown' if case['unknown'] else 'all_known', 'stat:' + case['statistic'],
               'clustering:' + ('all' if sorted(case['clustering']) == list(range(nch)) else 'subset'))
 
@@ -253,6 +263,14 @@ def check(case, obs):
             # dim-blank cases accept either outcome for the blank, and everything else is checked on what took part
             keep = keep[1:]
             obs.exclude('dim_blank_discarded_at_display_edge')
+        if case.get('low_gain') and len(sel_mef) < len(keep):
+            # low gain: the dimmest populations lie within 1.5 % of the display range's lower end (below ~30 a.u. of an
+            # 18-bit detector), where the selection step discards them like populations piled up at the limit (documented
+            # in selection_std); either outcome is accepted for those, the rest is checked on what took part
+            j = len(keep) - len(sel_mef)
+            if all(true_stat[k] < 30.0 for k in keep[:j]):
+                keep = keep[j:]
+                obs.exclude('low_gain_discarded_at_display_edge')
         exp_mef = np.array([info[c]['mef'][k] for k in keep])
         exp_rfi = true_stat[keep]
         obs.claim('exclusion', len(sel_mef) == len(keep),
